@@ -171,11 +171,16 @@ def check_weighted(h: Harness):
         weights = [n / den for n in ns]
         total = int(sum(ns) * 100000 / den)
         draws = sorted({0, 1, total - 1, total, total + 1, total // 2} | {rng.randrange(0, total + 2) for _ in range(6)})
+        given = list(weights)   # ONE list object handed to every call (as a caller holding its weights would)
         for d in draws:
             if d < 0:
                 continue
             s = ScriptedSource([d])
-            v = call(h, "cw", lambda: s.choice_weighted(list(range(len(ns))), weights))
+            v = call(h, "cw", lambda: s.choice_weighted(list(range(len(ns))), given))
+            if given != weights:
+                h.fail("RandomSource.choice_weighted", "weights-argument-modified",
+                       f"choice_weighted changed the caller's weights list {weights} -> {given} (every later choice from it follows other weights)", [den, ns, d])
+                given = list(weights)
             if isinstance(v, str):
                 h.fail("RandomSource.choice_weighted", "raises", f"choice_weighted(weights={weights}) raised {v}", [den, ns, d])
                 continue
